@@ -650,6 +650,20 @@ class Interp:
             def f(obj, s):
                 return self.B.setattr_(self, obj, target.attr, val, s)
             return self.bind(self.eval(target.value, st), f)
+        if isinstance(target, ast.Subscript) and isinstance(target.slice, ast.Slice):
+            def f3(obj, s):
+                parts = [target.slice.lower, target.slice.upper]
+                def g(bounds, s2):
+                    lo, hi = bounds
+                    items = self.B.iter_values(self, val, s2)
+                    if isinstance(obj, Ref) and s2.obj(obj).kind == "list" and not s2.obj(obj).setlike and (lo is None or isinstance(lo, int)) and (hi is None or isinstance(hi, int)) \
+                            and items is not None and target.slice.step is None:
+                        s2.obj(obj).items[lo:hi] = list(items)
+                    else:
+                        s2.note("slice store on abstract list / bounds")
+                    return [(None, s2)]
+                return self.bind(self.eval_list([p if p is not None else ast.Constant(value=None) for p in parts], s), g)
+            return self.bind(self.eval(target.value, st), f3)
         if isinstance(target, ast.Subscript):
             def f2(obj, s):
                 return self.bind(self.eval(target.slice, s), lambda idx, s2: self.B.setitem_(self, obj, idx, val, s2))
